@@ -4,6 +4,7 @@ import itertools
 import random
 
 import corecheck
+import optionscheck
 import tlc
 
 LEVELS = [-1, 0, 1, 2, 3]
@@ -79,13 +80,23 @@ def run(chk, tier, seed, replay=None):
                 'middle suite, inner suite, TestCase class, test instance) with random '
                 'values and random sibling declarations x option vectors, observed '
                 'through --list-tests (grouping by layer and selection) and real runs; '
-                'TLC computes EffLayer / EffLevel / Eligible / KeepLayer; distinct = '
+                'TLC computes EffLayer / EffLevel / Eligible / KeepLayer; (3) Options.tla: the '
+                'normalisation pipeline of get_options model-checked (documented meaning of the raw '
+                '-u / -f / --layer / --all / --at-level / --only-level switches = the code\'s reading of '
+                'the normalised options, every layer kind, match relation and level) and ~900 real '
+                'get_options(argv, defaults) calls judged by Trace_Options; distinct = '
                 'distinct (declarations, options)')
     chk.assumptions += ['--all combined with --only-level: --only-level wins (as the code and the statement\'s "or equals --only-level when that is given" say)']
     if replay:
+        if optionscheck.is_replay(replay):
+            optionscheck.replay(chk, replay, ['C09:'])
+            return
         corecheck.replay(chk, {'C03', 'C01'}, replay)
         return
     rng = random.Random(seed * 7919 + 9)
+    # the switches on their way through get_options (Options.tla): model checking of the
+    # normalisation pipeline and one record per real get_options call
+    optionscheck.run(chk, tier, seed, ['C09:'])
     res = tlc.run('SelectionMC', 'SelectionMC_q' if tier == 'quick' else 'SelectionMC',
                   timeout=1800)
     chk.add_tlc('SelectionMC', res)
